@@ -122,11 +122,18 @@ func (s *Service) Handle(ctx context.Context, conn net.Conn) error {
 
 	rcvLine := make(chan string)
 
+	// messages and lines of this connection only; the pump below ends with the connection
+	messages := make(chan Message)
+	done := make(chan struct{})
+	defer close(done)
+
 	// Wait for a message and send it into the eventbus
 	go func() {
 		for {
 			select {
-			case message := <-s.receiveChan:
+			case <-done:
+				return
+			case message := <-messages:
 				header := []event.Option{}
 
 				for key, values := range message.Header {
@@ -165,7 +172,15 @@ func (s *Service) Handle(ctx context.Context, conn net.Conn) error {
 	}()
 
 	//Create new smtp server connection
-	c := s.srv.newConn(conn, rcvLine)
+	srv := &Server{
+		Banner:    s.srv.Banner,
+		tlsConfig: s.srv.tlsConfig,
+		Handler: HandlerFunc(func(msg Message) error {
+			messages <- msg
+			return nil
+		}),
+	}
+	c := srv.newConn(conn, rcvLine)
 	// Start server loop
 	c.serve()
 	return nil
